@@ -134,7 +134,7 @@ func (w *work) overlayFor(harness string) (map[string]string, error) {
 }
 
 func (w *work) build(p *PartSpec) (string, error) {
-	key := fmt.Sprint(p.Harness, "|", p.Instrument, "|", p.FsPoints)
+	key := fmt.Sprint(p.Harness, "|", p.Instrument, "|", p.FsPoints, "|", len(p.Probes))
 	w.mu.Lock()
 	if b, ok := w.built[key]; ok {
 		w.mu.Unlock()
@@ -159,7 +159,7 @@ func (w *work) build(p *PartSpec) (string, error) {
 	if err != nil {
 		return "", err
 	}
-	hdir := filepath.Join(w.dir, "b-"+p.Harness+fmt.Sprint(p.Instrument, p.FsPoints))
+	hdir := filepath.Join(w.dir, "b-"+p.Harness+fmt.Sprint(p.Instrument, p.FsPoints, len(p.Probes)))
 	os.MkdirAll(hdir, 0755)
 	if p.Generate != nil {
 		gen, err := p.Generate(w, hdir, ov)
